@@ -311,6 +311,19 @@ theorem comment_is_whitespace (env : Macro.Env) (cap : Option Nat) (c : List Cha
   unfold processText
   rw [Macro.comment_is_whitespace c hc v]
 
+/-- **a comment anywhere is white space**: wherever the `#` stands outside strings, rich text blocks and other comments (the
+    scanner's state after the preceding text `u` is normal — `endSt`, computable), the whole `process` returns the same outcome as
+    for the text with the comment replaced by blanks -/
+theorem comment_anywhere_is_whitespace (env : Macro.Env) (cap : Option Nat) (u c v : List Char) (hc : ∀ x ∈ c, x ≠ '\n')
+    (hn : endSt .normal u '#' = .normal) :
+    processText env cap (u ++ '#' :: c ++ '\n' :: v) =
+      processText env cap (u ++ List.replicate (c.length + 1) ' ' ++ '\n' :: v) := by
+  unfold processText
+  rw [Macro.comment_anywhere_is_whitespace u c v hc hn]
+
+/-- non-vacuity: after a task line with a string the scanner is back in its normal state -/
+example : endSt .normal "task a \"A # not a comment\" { effort 1h }\n".toList '#' = .normal := by decide +kernel
+
 /-- blanking replaces characters one for one: positions (line and column of later error messages) are unchanged -/
 theorem blank_keeps_positions (s : List Char) : (blankComments s).length = s.length := Macro.blankComments_length s
 
